@@ -310,6 +310,8 @@ func WorkerMain(t *testing.T) {
 				p = templateDisabledProg(NewTape(seed*2 + 1))
 			case "vdr":
 				p = templateVdrProg(NewTape(seed*2 + 1))
+			case "deepdisabled":
+				p = templateDeepDisabledProg(NewTape(seed*2 + 1))
 			case "nested":
 				p = templateNestedProg(NewTape(seed*2 + 1))
 			case "structref":
